@@ -39,6 +39,17 @@ fn main() {
 fn fast_base(tag: &str) -> PathBuf {
     let shm = PathBuf::from("/dev/shm");
     if std::env::var("VERIF_NO_SHM").is_err() && shm.is_dir() {
+        // leftovers of killed runs (their process no longer exists)
+        if let Ok(rd) = std::fs::read_dir(&shm) {
+            for ent in rd.flatten() {
+                let name = ent.file_name().to_string_lossy().into_owned();
+                if let Some(pid) = name.strip_prefix(&format!("verif-{tag}-"))
+                    && !std::path::Path::new(&format!("/proc/{pid}")).exists()
+                {
+                    let _ = std::fs::remove_dir_all(ent.path());
+                }
+            }
+        }
         let p = shm.join(format!("verif-{}-{}", tag, std::process::id()));
         let _ = std::fs::remove_dir_all(&p);
         if std::fs::create_dir_all(&p).is_ok() {
@@ -91,21 +102,13 @@ fn run_inner(args: &vcore::Args, slow: &std::path::Path, fast: &std::path::Path)
         rep.merge(comp::run(args.tier, fast));
     }
     rep.set("seam_layer_wall_s", json!(t1.elapsed().as_secs_f64()));
-    // confirm the abort of the oversized allocation in a sacrificial child (largest request first)
-    let mut worst: Option<(usize, usize)> = None;
-    for (i, v) in rep.violations.iter().enumerate() {
-        if v.sig.get("kind").map(|k| k == "unbounded-allocation").unwrap_or(false) {
-            let n: usize = v.detail.split(' ').filter_map(|w| w.parse().ok()).next().unwrap_or(0);
-            if worst.map(|w| n > w.1).unwrap_or(true) {
-                worst = Some((i, n));
-            }
-        }
-    }
-    if let Some((i, n)) = worst {
-        let case = rep.violations[i].case.clone();
+    // confirm in a sacrificial child that the oversized allocation aborts the process when that much memory
+    // is not available: the top bit of the first length prefix flipped (a 2 GiB request for a 13-byte log)
+    if let Some(i) = rep.violations.iter().position(|v| v.sig.get("kind").map(|k| k == "unbounded-allocation").unwrap_or(false)) {
+        let case = json!({"layer": "wal-seam", "durability": "nosync", "max_log_size": "default-64MiB", "history": "d", "image": "flip wal_00000000.log byte 3 bit 7"});
         if let Some(txt) = comp::confirm_abort(&case, fast, 1 << 30) {
-            rep.set("abort_confirmation", json!({"case": case, "request_bytes": n, "outcome": txt}));
-            rep.violations[i].detail.push_str(&format!(" [{txt}]"));
+            rep.set("abort_confirmation", json!({"case": case, "outcome": txt}));
+            rep.violations[i].detail.push_str(&format!(" [worst case: {txt}]"));
         }
     }
     rep.set("scratch", json!({"histories_recorded_on": slow.display().to_string(), "crash_images_opened_on": fast.display().to_string()}));
